@@ -220,7 +220,8 @@ def k2_timeout(k: int, none: bool) -> bool:
 PHASES = ('setup', 'before-assert', 'assert', 'cleanup')
 ALL_PHASES = ('setup', 'act', 'before-assert', 'assert', 'cleanup')
 DEFAULT_TIMEOUT = 60  # reference manual, concept "timeout": default 60 seconds
-INITIAL_A = 'a0'  # the variable A is set in the environment Exactly is started with, B and U are not
+INITIAL_A = 'a0'  # the variable A is set in the environment Exactly is started with, B, P and U are not
+VALUE_PROGRAM_OUTPUT = 'v${A}'  # what the stand-in child `probe-value` writes to stdout
 
 _OF = {ref.BOTH: '', ref.ACT: ' -of act', ref.NON_ACT: ' -of !act'}
 
@@ -238,12 +239,23 @@ def _forms():
         fs.append(('env%s A = "${A}2"' % _OF[t], ('set', t, 'A', '${A}2')))
         fs.append(('env%s B = "<${A}${U}>"' % _OF[t], ('set', t, 'B', '<${A}${U}>')))
         fs.append(('env%s unset A' % _OF[t], ('unset', t, 'A')))
-    return tuple(fs)
+    nbase = len(fs)
+    # the value comes from a program: the program is a process too (manual, `env`: "it will be executed in an
+    # environment with the environment variables of the specified phase")
+    for t in ref.TARGETS:
+        fs.append(('env%s P = -stdout-from $ probe-value' % _OF[t], ('setprog', t, 'P', VALUE_PROGRAM_OUTPUT)))
+    nprog = len(fs)
+    # timeouts that are symbolic integers (literal K0 / K1 through the real parser)
+    fs.append(('timeout = K0', ('timeout', 'K0')))
+    fs.append(('timeout = K1', ('timeout', 'K1')))
+    return tuple(fs), nbase, nprog
 
 
-FORMS = _forms()
+FORMS, NBASE, NPROG = _forms()
 PRELUDE = ('dir sub/sub/sub', 'dir a/sub/sub')
 DIRS_IN_ACT = ('', 'sub', 'sub/sub', 'sub/sub/sub', 'a', 'a/sub', 'a/sub/sub')
+# the probes are processes started by different instructions
+PROBE_KINDS = ('$ TAG', '% TAG', 'run % TAG', '$ TAG')
 
 
 def existing_dirs(act_dir: str):
@@ -268,49 +280,71 @@ def case_text(history) -> str:
             continue
         if ph == 'setup':
             lines.extend(PRELUDE)
-        lines.append('$ ' + probe(ph, 0))
+        lines.append(PROBE_KINDS[0].replace('TAG', probe(ph, 0)))
         i = 0
         for f, p in history:
             if PHASES[p] == ph:
                 i += 1
                 lines.append(FORMS[f][0])
-                lines.append('$ ' + probe(ph, i))
+                lines.append(PROBE_KINDS[i % len(PROBE_KINDS)].replace('TAG', probe(ph, i)))
         lines.append('')
     return '\n'.join(lines) + '\n'
 
 
-def apply_form(m: ref.Machine, effect, in_setup: bool, bug: int = 0):
-    k = effect[0]
-    if k == 'cd':
-        m.cd(effect[1], effect[2])
-    elif k == 'timeout':
-        m.set_timeout(effect[1])
-    elif k == 'set':
-        m.env_set(effect[1], in_setup, effect[2], effect[3])
-    elif k == 'unset':
-        m.env_unset(effect[1], in_setup if bug != 4 else True, effect[2])
-    else:
-        raise ValueError(effect)
-
-
-def expected_observations(history, effects, initial_environ, act_dir: str, bug: int = 0):
-    """The reference: what every probe process sees.  None if a `cd` of the history names a directory
-    that does not exist (such histories are outside the quantifier: the case stops with HARD_ERROR)."""
+def expected_observations(history, initial_environ, act_dir: str, ints=None, bug: int = 0):
+    """The reference: what every probe process sees, in the order of the test case.  None if a `cd` of the
+    history names a directory that does not exist (such histories are outside the quantifier: the case
+    stops with HARD_ERROR there)."""
     m = ref.Machine(initial_environ, DEFAULT_TIMEOUT, act_dir, act_dir, existing_dirs(act_dir))
     out = []
     for ph in ALL_PHASES:
         if ph == 'act':
             out.append(('probe-act',) + (m.seen_by_atc() if bug != 5 else m.seen_by_instruction()))
             continue
+        in_setup = ph == 'setup'
         out.append((probe(ph, 0),) + m.seen_by_instruction())
         i = 0
-        for (f, p), eff in zip(history, effects):
-            if PHASES[p] == ph:
-                i += 1
-                apply_form(m, eff, ph == 'setup', bug)
+        for f, p in history:
+            if PHASES[p] != ph:
+                continue
+            i += 1
+            eff = FORMS[f][1]
+            k = eff[0]
+            if k == 'cd':
+                m.cd(eff[1], eff[2])
                 if m.failed:
                     return None
-                out.append((probe(ph, i),) + m.seen_by_instruction())
+            elif k == 'timeout':
+                t = eff[1]
+                if bug != 6:
+                    m.set_timeout(ints[t] if isinstance(t, str) else t)
+            elif k == 'set':
+                m.env_set(eff[1], in_setup, eff[2], eff[3])
+            elif k == 'unset':
+                m.env_unset(eff[1], in_setup, eff[2])
+            elif k == 'setprog':
+                for s_ in m.sets_changed_by(eff[1], in_setup):
+                    out.append(('probe-value', dict(s_), m.timeout, m.cwd))  # the program runs in the set being changed
+                m.env_set(eff[1], in_setup, eff[2], eff[3])
+            else:
+                raise ValueError(eff)
+            out.append((probe(ph, i),) + m.seen_by_instruction())
+    return out
+
+
+def _normalized(observations):
+    """The order in which `env` without -of evaluates its value for the two sets is not specified:
+    adjacent `probe-value` observations are put into a canonical order."""
+    out = []
+    run_ = []
+    for o in observations:
+        if o[0] == 'probe-value':
+            run_.append(o)
+            continue
+        out.extend(sorted(run_, key=lambda x: repr(sorted(x[1].items()))))
+        run_ = []
+        out.append(o)
+    out.extend(sorted(run_, key=lambda x: repr(sorted(x[1].items()))))
     return out
 
 
@@ -318,16 +352,13 @@ def _history_of(args, k: int):
     return tuple((args[2 * i], args[2 * i + 1]) for i in range(k))
 
 
-def _valid_history(h) -> bool:
-    for i, (f, p) in enumerate(h):
-        if not (0 <= f < len(FORMS) and 0 <= p < len(PHASES)):
-            return False
-        if i and p < h[i - 1][1]:
-            return False
-    return True
+def _form_ranges(case):
+    k = case['k']
+    return tuple(case.get('ranges') or ((0, NBASE),) * k)
 
 
 def _pre_k3(f0: int, p0: int, f1: int, p1: int, f2: int, p2: int) -> bool:
+    from harness import _C11_lib as L
     case = ob.case()
     k = case['k']
     args = (f0, p0, f1, p1, f2, p2)
@@ -335,45 +366,45 @@ def _pre_k3(f0: int, p0: int, f1: int, p1: int, f2: int, p2: int) -> bool:
         if x != 0:
             return False
     h = _history_of(args, k)
-    if not _valid_history(h):
-        return False
-    if 'phases' in case and tuple(p for _, p in h) != tuple(case['phases']):
-        return False
-    if 'forms0' in case and k and not (case['forms0'][0] <= f0 < case['forms0'][1]):
-        return False
-    h = tuple((ob.concrete_int(f, 0, len(FORMS) - 1), ob.concrete_int(p, 0, len(PHASES) - 1)) for f, p in h)
-    return expected_observations(h, [FORMS[f][1] for f, _ in h], {}, '/R/W/S/act') is not None
+    phases = tuple(case['phases'])
+    ranges = _form_ranges(case)
+    for i, (f, p) in enumerate(h):
+        if p != phases[i] or not (ranges[i][0] <= f < ranges[i][1]):
+            return False
+    h = tuple((ob.concrete_int(f, ranges[i][0], ranges[i][1] - 1), phases[i]) for i, (f, p) in enumerate(h))
+    with L.untraced():
+        return expected_observations(h, {}, '/R/W/S/act') is not None
 
 
-def run_history(h):
+def run_history(h, recorder=None):
     import os
     from harness import _C11_lib as L
-    had = os.environ.get('A')
-    had_b = os.environ.get('B')
+    saved = {n: os.environ.get(n) for n in ('A', 'B', 'P', 'U')}
     os.environ['A'] = INITIAL_A
-    os.environ.pop('B', None)
-    os.environ.pop('U', None)
+    for n in ('B', 'P', 'U'):
+        os.environ.pop(n, None)
     try:
         initial = dict(os.environ)
-        run = L.run_main_program(case_text(h), L.Recorder())
+        if recorder is None:
+            recorder = L.Recorder(stdout_of=lambda tag: VALUE_PROGRAM_OUTPUT if tag == 'probe-value' else '')
+        run = L.run_main_program(case_text(h), recorder)
     finally:
-        if had is None:
-            os.environ.pop('A', None)
-        else:
-            os.environ['A'] = had
-        if had_b is not None:
-            os.environ['B'] = had_b
+        for n, v in saved.items():
+            if v is None:
+                os.environ.pop(n, None)
+            else:
+                os.environ[n] = v
     return initial, run
 
 
-def check_run(h, initial, run, bug: int = 0) -> bool:
+def check_run(h, initial, run, ints=None, bug: int = 0) -> bool:
     if run.exception is not None or run.rc != 0 or run.ident != 'PASS' or len(run.sandbox_roots) != 1:
         return False
-    if run.environ_after != run.environ_before:  # Exactly's own environment is not the medium
+    if run.environ_after != run.environ_before:  # the environment of Exactly itself is not the medium
         return False
-    want = expected_observations(h, [FORMS[f][1] for f, _ in h], initial, run.act_dir, bug)
+    want = expected_observations(h, initial, run.act_dir, ints, bug)
     got = [(c.tag, c.env, c.timeout, c.cwd) for c in run.calls]
-    return want is not None and got == want
+    return want is not None and _normalized(got) == _normalized(want)
 
 
 def k3_history(f0: int, p0: int, f1: int, p1: int, f2: int, p2: int) -> bool:
@@ -384,18 +415,127 @@ def k3_history(f0: int, p0: int, f1: int, p1: int, f2: int, p2: int) -> bool:
     from harness import _C11_lib as L
     case = ob.case()
     k = case['k']
+    phases = tuple(case['phases'])
+    ranges = _form_ranges(case)
     h = _history_of((f0, p0, f1, p1, f2, p2), k)
-    h = tuple((ob.concrete_int(f, 0, len(FORMS) - 1), ob.concrete_int(p, 0, len(PHASES) - 1)) for f, p in h)
+    h = tuple((ob.concrete_int(f, ranges[i][0], ranges[i][1] - 1), phases[i]) for i, (f, p) in enumerate(h))
     with L.untraced():
         initial, run = run_history(h)
-        ok = check_run(h, initial, run, case.get('oracle_bug', 0))
+        ok = check_run(h, initial, run, None, case.get('oracle_bug', 0))
     return ob.post(ok)
+
+
+# K3 with symbolic data: the timeouts and the initial value of A are symbolic; the history is concrete.
+
+class _FakeOs:
+    """Stands in for the `os` module as seen by predefined_properties.os_environ_getter: the environment
+    Exactly was started with."""
+
+    def __init__(self, environ):
+        self.environ = environ
+
+
+def _pre_k3s(t0: int, t1: int, a: str) -> bool:
+    tmax = ob.case()['tmax']
+    return 0 <= t0 <= tmax and 0 <= t1 <= tmax and len(a) <= 2
+
+
+def k3_symbolic(t0: int, t1: int, a: str) -> bool:
+    """
+    pre: _pre_k3s(t0, t1, a)
+    post: _
+    """
+    from harness import _C11_lib as L
+    from vsym import xly
+    from exactly_lib.execution import predefined_properties
+    case = ob.case()
+    h = tuple(case['history'])
+    started_with = {'A': a, 'HOME': '/home/x'}
+    real_os = predefined_properties.os
+    predefined_properties.os = _FakeOs(started_with)
+    xly.install_int_placeholders([t0, t1])
+    try:
+        recorder = L.Recorder(inherited_environ=lambda: started_with,
+                              stdout_of=lambda tag: VALUE_PROGRAM_OUTPUT if tag == 'probe-value' else '')
+        run = L.run_main_program(case_text(h), recorder)
+    finally:
+        predefined_properties.os = real_os
+        xly.uninstall_int_placeholders()
+    return ob.post(check_run(h, {'A': a, 'HOME': '/home/x'}, run, {'K0': t0, 'K1': t1}, case.get('oracle_bug', 0))
+                   and started_with == {'A': a, 'HOME': '/home/x'})
 
 
 # ----------------------------------------------------------------------------- obligations
 
+REAL_K2 = (
+    'exactly_lib.impls.instructions.multi_phase.environ.impl.TheInstructionEmbryo.main',
+    'exactly_lib.impls.instructions.multi_phase.environ.impl.TheInstructionEmbryo._resolve_applier',
+    'exactly_lib.impls.instructions.multi_phase.environ.impl.TheInstructionEmbryo._resolve_applier_factory',
+    'exactly_lib.impls.instructions.multi_phase.environ.impl._ApplierFactoryWSupportForNonSetupPhase',
+    'exactly_lib.impls.instructions.multi_phase.environ.impl._ApplierFactoryWSupportForSetupAndNonSetupPhases',
+    'exactly_lib.impls.instructions.multi_phase.environ.impl.ModifierApplierForNonSetupPhase',
+    'exactly_lib.impls.instructions.multi_phase.environ.impl.ModifierApplierForSetupPhase',
+    'exactly_lib.impls.instructions.multi_phase.environ.impl.SequenceOfAppliers',
+    'exactly_lib.impls.instructions.multi_phase.environ.impl.ModifierOfSet',
+    'exactly_lib.impls.instructions.multi_phase.environ.impl.ModifierUnset',
+    'exactly_lib.impls.instructions.multi_phase.environ.impl.ModifierAdvForSet',
+    'exactly_lib.impls.instructions.multi_phase.environ.impl._expand_vars',
+    'exactly_lib.impls.instructions.multi_phase.environ.parse.EmbryoParser',
+    'exactly_lib.test_case.phases.instruction_settings.InstructionSettings',
+    'exactly_lib.test_case.phases.setup.settings_builder.SetupSettingsBuilder',
+)
+REAL_K2T = (
+    'exactly_lib.impls.instructions.multi_phase.timeout.parse.EmbryoParser',
+    'exactly_lib.impls.instructions.multi_phase.timeout.impl.TheInstructionEmbryo',
+    'exactly_lib.test_case.phases.instruction_settings.InstructionSettings',
+    'exactly_lib.impls.types.integer.parse_integer.validator_for_non_negative',
+)
+REAL_K3 = (
+    'exactly_lib.cli.main_program.MainProgram.execute',
+    'exactly_lib.execution.partial_execution.impl.executor._PartialExecutor.execute',
+    'exactly_lib.execution.partial_execution.impl.executor._PartialExecutor._post_sds_environment',
+    'exactly_lib.execution.partial_execution.impl.executor._PartialExecutor._post_sds_main_environments',
+    'exactly_lib.execution.partial_execution.impl.executor._PartialExecutor._construct_act_phase_executor',
+    'exactly_lib.execution.partial_execution.impl.executor._PartialExecutor._env_vars__read_only',
+    'exactly_lib.execution.partial_execution.impl.executor._PartialExecutor._set_cwd_to_act_dir',
+    'exactly_lib.execution.partial_execution.setup_settings_handler.StandardSetupSettingsHandler',
+    'exactly_lib.execution.partial_execution.setup_settings_handler.AtcExecutionInputAdv',
+    'exactly_lib.execution.partial_execution.impl.atc_execution.ActionToCheckExecutor',
+    'exactly_lib.execution.impl.phase_step_executors.SetupMainExecutor',
+    'exactly_lib.execution.impl.phase_step_executors.BeforeAssertMainExecutor',
+    'exactly_lib.execution.impl.phase_step_executors.AssertMainExecutor',
+    'exactly_lib.execution.impl.phase_step_executors.CleanupMainExecutor',
+    'exactly_lib.execution.predefined_properties.os_environ_getter',
+    'exactly_lib.impls.actors.util.atc_proc_exe_settings.for_atc',
+    'exactly_lib.impls.instructions.multi_phase.environ.impl.TheInstructionEmbryo.main',
+    'exactly_lib.impls.instructions.multi_phase.environ.impl.ModifierApplierForNonSetupPhase',
+    'exactly_lib.impls.instructions.multi_phase.environ.impl.ModifierApplierForSetupPhase',
+    'exactly_lib.impls.instructions.multi_phase.environ.impl._expand_vars',
+    'exactly_lib.impls.instructions.multi_phase.environ.parse.EmbryoParser',
+    'exactly_lib.impls.instructions.multi_phase.change_dir.InstructionEmbryo.custom_main',
+    'exactly_lib.impls.instructions.multi_phase.change_dir.EmbryoParser',
+    'exactly_lib.impls.instructions.multi_phase.timeout.parse.EmbryoParser',
+    'exactly_lib.impls.instructions.multi_phase.timeout.impl.TheInstructionEmbryo.main',
+    'exactly_lib.test_case.phases.instruction_settings.InstructionSettings',
+    'exactly_lib.test_case.phases.setup.settings_builder.SetupSettingsBuilder',
+    'exactly_lib.util.process_execution.process_executor.ProcessExecutor.execute',
+    'exactly_lib.definitions.os_proc_env.TIMEOUT__DEFAULT',
+)
+STUB_SUBPROCESS = ('subprocess module at process_executor / preprocessor: recording stand-in that starts nothing; records command line, '
+                   'env= (None: os.environ at that moment), timeout=, cwd= (absent: os.getcwd() at that moment); exit code 0')
+STUB_UNTRACED = ('CrossHair tracing is suspended (crosshair.tracers.NoTracing) once every selector has been made concrete: the real '
+                 'program runs natively on concrete data, the solver enumerates the selector space exhaustively')
+STUB_INT = 'python_evaluate -> placeholder table (the integer literal K0 denotes the symbolic integer)'
+STUB_GETTER = 'default_environ_getter argument of InstructionSettings: returns a fresh copy of a dict with symbolic contents'
+
+
+def _k2_form_name(forms) -> str:
+    return '+'.join(K2_FORMS[f][0].replace(' ', '') for f in forms)
+
+
 def obligations(tier: str) -> List[Ob]:
     obs = []
+    # ---- K1
     lens = (0, 1, 2, 3, 4, 5) if tier == 'quick' else (0, 1, 2, 3, 4, 5, 6)
     for n in lens:
         obs.append(Ob(name='K1:expand:len%d' % n, fn='k1_expand', case=dict(len=n, valen=2), kernel='K1',
@@ -405,4 +545,54 @@ def obligations(tier: str) -> List[Ob]:
     for bug, what in ((1, 'unknown name kept verbatim'), (3, '${} taken as a reference')):
         obs.append(Ob(name='K1:seeded-oracle-error-%d' % bug, fn='k1_expand', case=dict(len=4, valen=1, oracle_bug=bug),
                       kernel='K1', bound='seeded: ' + what, timeout=300, expect=ob.REFUTE))
+    # ---- K2
+    singles = [(f,) for f in range(len(K2_FORMS))]
+    pairs = [(0, 1), (1, 1), (4, 1), (1, 3), (3, 2), (2, 4), (4, 0), (5, 3)]
+    if tier == 'thorough':
+        pairs = [(f, g) for f in range(len(K2_FORMS)) for g in range(len(K2_FORMS))]
+    phases = ('setup', 'before-assert') if tier == 'quick' else K2_PHASES
+    for forms in singles + pairs:
+        obs.append(Ob(name='K2:env:' + _k2_form_name(forms), fn='k2_apply', case=dict(forms=forms, phases=phases), kernel='K2',
+                      bound='instruction(s) `env{T} %s`, every T in {none, -of act, -of !act} per instruction, in each of %s; '
+                            'non-act set / act set: unset (inherit) or a dict with B set and A unset or any text of <= 2 '
+                            'characters; default environment likewise' % ('`, `env{T} '.join(K2_FORMS[f][0] for f in forms), list(phases)),
+                      timeout=600, real=REAL_K2, stubs=(STUB_GETTER,),
+                      entry='instruction parsed from a test-case text by the real parser; instruction.main(...)'))
+    obs.append(Ob(name='K2:seeded-oracle-error-1', fn='k2_apply', case=dict(forms=(1,), phases=('setup',), oracle_bug=1), kernel='K2',
+                  bound='seeded: value always expanded against the non-act set', timeout=300, expect=ob.REFUTE))
+    obs.append(Ob(name='K2:seeded-oracle-error-2', fn='k2_apply', case=dict(forms=(4,), phases=('before-assert',), oracle_bug=2),
+                  kernel='K2', bound='seeded: `-of act` after the act phase changes the act set', timeout=300, expect=ob.REFUTE))
+    for ph in (('setup', 'cleanup') if tier == 'quick' else K2_PHASES):
+        obs.append(Ob(name='K2:timeout:' + ph, fn='k2_timeout', case=dict(phase=ph), kernel='K2',
+                      bound='`timeout = K0` for every integer K0 >= -99 (negative: rejected by validation) and `timeout = none`, in [%s]' % ph,
+                      timeout=300, real=REAL_K2T, stubs=(STUB_INT,),
+                      entry='instruction parsed from a test-case text by the real parser; validate_pre_sds, main'))
+    obs.append(Ob(name='K2:timeout:seeded-oracle-error', fn='k2_timeout', case=dict(phase='setup', oracle_bug=True), kernel='K2',
+                  bound='seeded: 0 is claimed to be rejected', timeout=300, expect=ob.REFUTE))
+    # ---- K3
+    import itertools
+    stubs_k3 = (STUB_SUBPROCESS, 'counting sandbox resolver (MainProgram constructor argument)', 'in-memory stdout/stderr', STUB_UNTRACED)
+    outside_k3 = ('histories in which a `cd` names a directory that does not exist (the case ends HARD_ERROR there)',
+                  'that a started child really receives env= / cwd / timeout= (contract of subprocess.call)',
+                  'changing directory inside a child process (OS behaviour, no code of exactly_lib involved)')
+    kmax = 2 if tier == 'quick' else 3
+    for k in range(0, kmax + 1):
+        for phases in itertools.combinations_with_replacement(range(len(PHASES)), k):
+            splits = [None] if k < 3 else [(lo, min(lo + 6, len(FORMS))) for lo in range(0, len(FORMS), 6)]
+            for sp in splits:
+                case = dict(k=k, phases=phases)
+                name = 'K3:history:k%d:%s' % (k, '+'.join(PHASES[p] for p in phases) or 'none')
+                if sp is not None:
+                    case['forms0'] = sp
+                    name += ':f%d-%d' % (sp[0], sp[1] - 1)
+                obs.append(Ob(name=name, fn='k3_history', case=case, kernel='K3', selector=True,
+                              bound='every history of %d instruction(s) out of the %d forms %s placed in [%s]%s, a probe process '
+                                    'before and after every one of them, at the start of every phase, and as the act phase' % (
+                                        k, len(FORMS), [f[0] for f in FORMS], '], ['.join(PHASES[p] for p in phases),
+                                        '' if sp is None else ' (first form: index %d..%d)' % (sp[0], sp[1] - 1)),
+                              timeout=1200, real=REAL_K3, stubs=stubs_k3, outside=outside_k3,
+                              entry='MainProgram.execute([FILE]) on the generated test-case file'))
+    obs.append(Ob(name='K3:seeded-oracle-error-atc-sees-non-act-set', fn='k3_history', case=dict(k=1, phases=(0,), oracle_bug=5),
+                  kernel='K3', selector=True, bound='seeded: the act process is claimed to see the non-act set', timeout=600,
+                  expect=ob.REFUTE))
     return obs
